@@ -5,31 +5,36 @@
 (* entry is appended: an entry never changes afterwards).                      *)
 (* With Swapped = TRUE, and with KeepLen = TRUE (a recycled buffer keeps the    *)
 (* length of the datagram before), and with SessShared = TRUE (the session    *)
-(* data is overwritten by the next datagram) the run must FAIL (the driver     *)
-(* requires it).                                                               *)
+(* data is overwritten by the next datagram) and with DoubleRelease = TRUE (the *)
+(* path of unhandled datagrams releases the buffer twice) the run must FAIL     *)
+(* (the driver requires it).                                                   *)
 EXTENDS Exchange
 
 CONSTANTS MaxResend,
+          MaxJunk,       \* datagrams that never reach a handler
           Locals        \* the server's local addresses
 
-VARIABLES x, resent
+VARIABLES x, resent, junked
 
-Init == x = XInit /\ resent = 0
+Init == x = XInit /\ resent = 0 /\ junked = 0
 
 Next ==
-  \/ \E c \in Clients : \E a \in (IF c = 1 THEN {1} ELSE Locals) : CanSend(x, c) /\ x' = Send(x, c, c, a) /\ UNCHANGED resent     \* client c's request has c octets; w.l.o.g. client 1 talks to address 1
-  \/ \E c \in Clients : CanResend(x, c) /\ resent < MaxResend /\ x' = Resend(x, c) /\ resent' = resent + 1
-  \/ \E b \in Buffers, c \in Clients : CanRecv(x, b, c) /\ x' = Recv(x, b, c) /\ UNCHANGED resent
+  \/ \E c \in Clients : \E a \in (IF c = 1 THEN {1} ELSE Locals) : CanSend(x, c) /\ x' = Send(x, c, c, a) /\ UNCHANGED <<resent, junked>>     \* client c's request has c octets; w.l.o.g. client 1 talks to address 1
+  \/ \E c \in Clients : CanResend(x, c) /\ resent < MaxResend /\ x' = Resend(x, c) /\ resent' = resent + 1 /\ UNCHANGED junked
+  \/ junked < MaxJunk /\ x' = SendJunk(x) /\ junked' = junked + 1 /\ UNCHANGED resent
+  \/ \E b \in Buffers : CanRecvJunk(x, b) /\ x' = RecvJunk(x, b) /\ UNCHANGED <<resent, junked>>
+  \/ \E t \in 1..Len(x.tasks) : CanJunkRelease(x, t) /\ x' = JunkRelease(x, t) /\ UNCHANGED <<resent, junked>>
+  \/ \E b \in Buffers, c \in Clients : CanRecv(x, b, c) /\ x' = Recv(x, b, c) /\ UNCHANGED <<resent, junked>>
   \/ \E t \in 1..Len(x.tasks) :
-       /\ UNCHANGED resent
+       /\ UNCHANGED <<resent, junked>>
        /\ \/ CanDecode(x, t)  /\ x' = Decode(x, t)
           \/ CanRelease(x, t) /\ x' = Release(x, t)
           \/ CanHandle(x, t)  /\ x' = Handle(x, t)
           \/ CanReply(x, t)   /\ x' = Reply(x, t)
-  \/ \E c \in Clients : \E r \in x.rnet : CanClientRecv(x, c, r) /\ x' = ClientRecv(x, c, r) /\ UNCHANGED resent
+  \/ \E c \in Clients : \E r \in x.rnet : CanClientRecv(x, c, r) /\ x' = ClientRecv(x, c, r) /\ UNCHANGED <<resent, junked>>
 
 \* finished tasks are forgotten by the view, and so is the order in which handlers ran
-View == << [x EXCEPT !.saw = <<>>, !.tasks = SelectSeq(x.tasks, LAMBDA t : t.stage # "done")], resent >>
+View == << [x EXCEPT !.saw = <<>>, !.tasks = SelectSeq(x.tasks, LAMBDA t : t.stage # "done")], resent, junked >>
 
-Inv == NoMixing(x) /\ (~Swapped => BufferOwned(x))
+Inv == NoMixing(x) /\ PoolOnce(x) /\ (~Swapped => BufferOwned(x))
 =============================================================================
